@@ -233,6 +233,7 @@ const (
 	LGlobal                // package-level variable
 	LElem                  // element of a slice value (read-only)
 	LAElem                 // element of an array stored in a location
+	LLocal                 // non-escaping local variable (or a field path inside one)
 )
 
 type Loc struct {
@@ -244,6 +245,8 @@ type Loc struct {
 	Global *ssa.Global  // LGlobal
 	Slice  *Val         // LElem
 	Idx    string       // LElem
+	Local  string       // LLocal: variable name (heap var prefix)
+	LocalT types.Type   // LLocal: type stored at this path
 }
 
 type FnVal struct {
